@@ -275,6 +275,38 @@ func setReferenceForms(name string, form int, async bool) *spec.Spec {
 	return b.s
 }
 
+// shadowableNames: kessoku.Value expressions that mention package-level
+// variables named like the locals the generator likes to declare (eg, err,
+// zero, ch, ctx, and the lower-camel names of the provided types). Provider
+// expressions are copied into the injector body, so a generated local of the
+// same name in an enclosing scope would capture them: the file stops
+// compiling, or - same type - the injector silently uses the wrong value.
+func shadowableNames(name string, async bool) *spec.Spec {
+	b := newBuilder(name)
+	var params []int
+	var provs []int
+	for i, n := range []string{"eg", "err", "zero", "ch", "ctx", "retries5", "app"} {
+		t := b.nint(fmt.Sprintf("Retries%d", i), "")
+		v := uint64(1000 + i)
+		b.s.ExtraDecl += fmt.Sprintf("var %s %s = %d\n", n, b.s.Types[t].Name, v)
+		p := &spec.Prov{ID: len(b.s.Provs), Kind: spec.PValue, ValExpr: n, ValH: v, Results: []int{t}}
+		b.s.Provs = append(b.s.Provs, p)
+		provs = append(provs, p.ID)
+		params = append(params, t)
+	}
+	db := b.ptr(b.strct("Database", ""))
+	cache := b.ptr(b.strct("Cache", ""))
+	app := b.ptr(b.strct("App", ""))
+	provs = append(provs,
+		b.fn("NewDatabase", "", params[:4], []int{db}, async, true),
+		b.fn("NewCache", "", params[3:], []int{cache}, async, false),
+		b.fn("NewApp", "", []int{db, cache, params[0]}, []int{app}, false, false))
+	b.inject("InitializeApp", app, provs...)
+	b.inject("InitializeCache", cache, provs...)
+	b.s.Features = append(b.s.Features, "value-expressions-naming-package-level-variables-called-like-generated-locals")
+	return b.s
+}
+
 // injectorNameForms: declarations whose injector name cannot become a
 // package-level function: used twice in one file (0) or in two files of one
 // package (4), equal to a function the user wrote (1), a keyword (2), not an
@@ -358,6 +390,7 @@ func corpusSpecs(prop string) []*spec.Spec {
 			fs = append(fs, foreignThroughSibling(fmt.Sprintf("kf%s%ds", prop[1:], k), k, false, 0))
 		}
 		fs = append(fs, setReferenceForms("ks"+prop[1:]+"p", 0, true), setReferenceForms("ks"+prop[1:]+"x", 1, true))
+		fs = append(fs, shadowableNames("kv"+prop[1:]+"s", false), shadowableNames("kv"+prop[1:]+"a", true))
 		if prop == "C04" {
 			for k := 0; k < 6; k++ {
 				fs = append(fs, injectorNameForms(fmt.Sprintf("kn04i%d", k), k))
@@ -372,6 +405,7 @@ func corpusSpecs(prop string) []*spec.Spec {
 	case "C02", "C01", "C10", "C11":
 		var fs []*spec.Spec
 		if prop == "C02" || prop == "C01" || prop == "C10" {
+			fs = append(fs, shadowableNames("kv"+prop[1:]+"s", false), shadowableNames("kv"+prop[1:]+"a", true))
 			fs = append(fs, setReferenceForms("ks"+prop[1:]+"p", 0, false), setReferenceForms("ks"+prop[1:]+"q", 0, true))
 		}
 		if prop == "C10" || prop == "C11" {
